@@ -40,7 +40,7 @@ def cases(draw):
         if space["mode"] == "sequential" and sum(p["enabled"] for p in space["params"]) >= 2:
             space["dask"] = False
     case = {"space": space, "steps": draw(st.integers(1, 3)), "non_destructive": draw(st.booleans()),
-            "bump": draw(st.sampled_from([1.0, 2.5])), "fail": None, "pre_state": draw(st.booleans())}
+            "bump": draw(st.sampled_from([1.0, 2.5])), "fail": None, "pre_state": draw(st.booleans()), "ndarray_arg": draw(st.booleans())}
     temp_param = next((p for p in space["params"] if p["enabled"] and p["key"] == KEYS[5] and space["mode"] != "custom"), None)
     if temp_param and len(temp_param["values"]) >= 2 and draw(st.booleans()):
         case["fail"] = temp_param["values"][draw(st.integers(0, len(temp_param["values"]) - 1))]
@@ -55,9 +55,20 @@ def _pipeline(case, fail=None):
         {"name": "pers", "func": "pyxel.models.charge_collection.simple_persistence", "enabled": True,
          "arguments": {"trap_time_constants": [1.0, 10.0], "trap_densities": [0.1, 0.2]}},
     ]}
+    if case.get("ndarray_arg"):
+        # an ndarray-valued argument that its model modifies in place (turned into an ndarray after the build: YAML / JSON cannot carry one)
+        extra["charge_collection"].append({"name": "amut", "func": P + "array_arg_mutator", "enabled": True, "arguments": {"arr": [1.0, 2.0, 4.0], "tag": "amut"}})
     if fail is not None:
         extra["photon_collection"] = [{"name": "boom", "func": P + "fault_if", "enabled": True, "arguments": {"key": "temperature", "bad": fail}}]
     return echo_pipeline(extra)
+
+
+def _ndarray_args(cfg):
+    grp = cfg.pipeline.charge_collection
+    for m in (grp.models if grp is not None else []):
+        if m.name == "amut":
+            m.arguments["arr"] = np.array(m.arguments["arr"], dtype=float)
+    return cfg
 
 
 def _times(case):
@@ -75,7 +86,7 @@ def _standalone(case, run):
     det["environment"]["temperature"] = s[KEYS[5]]
     spec = {"detector": det, "pipeline": pipe, "mode": {"kind": "exposure"}, "readout": {"times": _times(case)},
             "non_destructive": case["non_destructive"]}
-    cfg = pyx.build(spec)
+    cfg = _ndarray_args(pyx.build(spec))
     if case["pre_state"]:  # the user's configuration includes whatever state their detector object carried
         cfg.detector._memory["probe_n"] = 40
         cfg.detector.pixel.array = np.full((2, 3), 9.0)
@@ -98,9 +109,11 @@ def body(case, rec):
             "non_destructive": case["non_destructive"], "mode": observation_mode_spec(space, rec.tmp)}
     cfg = None
     with rec.must_not_raise("valid_space_refused"):
-        cfg = pyx.build(spec)
+        cfg = _ndarray_args(pyx.build(spec))
     if cfg is None:
         return
+    if case.get("ndarray_arg"):
+        rec.cls("ndarray_argument")
     if case["pre_state"]:
         # the caller's detector already carries state of its own (memory, trapped charge, bucket contents)
         cfg.detector._memory["probe_n"] = 40
